@@ -120,6 +120,48 @@ def run(tier, seed):
         except Unsupported as e:
             rep.inconc("wire format %s: %s" % (fmt, e))
 
+    # ---- 5. the header values reported for a reassembled fast-packet message are those of its own frames' identifier, also
+    # when an unfinished transmission with another priority preceded it on the same (PGN, source, destination)
+    from .c03 import pick_fast_pgns
+    from .db import db as _db
+    fpgn = pick_fast_pgns(_db())[0]
+    p1, p2, sv, s1, s2 = z3.BitVec("prio1", 3), z3.BitVec("prio2", 3), z3.BitVec("fsrc", 8), z3.BitVec("seq1", 3), z3.BitVec("seq2", 3)
+    pays = [SymInt.var("fb%d" % i, 8) for i in range(13)]
+
+    def eb(prio_t, seq_t, idx, body):
+        fid = z3.Concat(prio_t, z3.BitVecVal(fpgn & 0x3FFFF, 18), sv) if ((fpgn >> 8) & 0xFF) >= 240 else z3.Concat(prio_t, z3.BitVecVal((fpgn >> 8) & 0x3FF, 10), z3.BitVecVal(255, 8), sv)
+        idb = [SymInt(z3.ZeroExt(1, z3.Extract(8 * i + 7, 8 * i, z3.ZeroExt(3, fid))), 8) for i in (3, 2, 1, 0)]
+        fr = [SymInt(z3.ZeroExt(1, z3.Concat(seq_t, z3.BitVecVal(idx, 5))), 8)] + ([13] if idx == 0 else []) + body
+        from .proxies import SymBytes
+        return SymBytes([0x80 | len(fr)] + idb + fr + [0] * (8 - len(fr)))
+
+    def h5():
+        dec = R.decoder.NMEA2000Decoder()
+        calls = []
+        dec._call_decode_function = lambda pgn_, pr_, s_, d_, ts_, dat, iso, raw: calls.append((pgn_, pr_, s_, d_)) or "MSG"
+        dec.decode_tcp(eb(p1, s1, 0, pays[:6]))                  # cut short: only the first frame of a transmission with priority p1
+        r1 = dec.decode_tcp(eb(p2, s2, 0, pays[:6]))
+        r2 = dec.decode_tcp(eb(p2, s2, 1, pays[6:13]))
+        return r1, r2, calls
+    try:
+        paths5, ex5 = explore(h5, max_paths=64, assumptions=[s1 != s2])
+        for pa in paths5:
+            if pa.kind != "return":
+                st0, m0 = satisfiable(z3.And(pa.cond(), s1 != s2))
+                if st0 == "sat":
+                    rep.violation({"kind": "fast-header"}, "fast-packet frames raised %r" % (pa.value,), {"kind": "fast_header", "prio1": m0.eval(p1, True).as_long(), "prio2": m0.eval(p2, True).as_long(), "src": m0.eval(sv, True).as_long(), "seq1": m0.eval(s1, True).as_long(), "seq2": m0.eval(s2, True).as_long()})
+                continue
+            r1, r2, calls = pa.value
+            ok5 = r1 is None and r2 == "MSG" and len(calls) == 1
+            claim5 = z3.And(truth(SymInt.lift(calls[0][1]) == SymInt(z3.ZeroExt(1, p2))), truth(SymInt.lift(calls[0][2]) == SymInt(z3.ZeroExt(1, sv))),
+                            truth(SymInt.lift(calls[0][3]) == 255), truth(SymInt.lift(calls[0][0]) == fpgn)) if ok5 else z3.BoolVal(False)
+            oblig(claim5, [s1 != s2] + pa.pc, "fast-header", {"kind": "fast-header"},
+                  "a reassembled fast-packet message is not reported with the priority / source / destination of its own frames' identifier",
+                  lambda m: {"kind": "fast_header", "prio1": m.eval(p1, True).as_long(), "prio2": m.eval(p2, True).as_long(), "src": m.eval(sv, True).as_long(),
+                             "seq1": m.eval(s1, True).as_long(), "seq2": m.eval(s2, True).as_long()})
+    except Unsupported as e:
+        rep.inconc("fast-packet header: %s" % e)
+
     rep.coverage.update(obligations=obligations, discharged=discharged, exhaustive=True,
                         checker_cmd="./check C05 --tier thorough   (re-decides every obligation; thorough adds cvc5)",
                         trusted_base=["CPython executing the instrumented source", "vf.proxies operator semantics",
@@ -148,6 +190,25 @@ def replay(r):
     N = plain()
     Dec, Enc = N.decoder.NMEA2000Decoder, N.encoder.NMEA2000Encoder
     k = r["kind"]
+    if k == "fast_header":
+        from .c03 import pick_fast_pgns
+        from .db import db as _db
+        fpgn = pick_fast_pgns(_db())[0]
+        dec = Dec()
+        calls = []
+        dec._call_decode_function = lambda pgn_, pr_, s_, d_, ts_, dat, iso, raw: calls.append((pgn_, pr_, s_, d_)) or "MSG"
+
+        def eb(prio, seq, idx, body):
+            fid = (prio << 26) | ((fpgn if ((fpgn >> 8) & 0xFF) >= 240 else (fpgn | 255)) << 8) | r["src"]
+            fr = bytes([(seq << 5) | idx]) + (bytes([13]) if idx == 0 else b"") + bytes(body)
+            return bytes([0x80 | len(fr)]) + fid.to_bytes(4, "big") + fr + bytes(8 - len(fr))
+        try:
+            dec.decode_tcp(eb(r["prio1"], r["seq1"], 0, range(6)))
+            dec.decode_tcp(eb(r["prio2"], r["seq2"], 0, range(6)))
+            dec.decode_tcp(eb(r["prio2"], r["seq2"], 1, range(6, 13)))
+        except Exception as e:
+            return True, "raised %r" % (e,)
+        return calls != [(fpgn, r["prio2"], r["src"], 255)], "reported (pgn, prio, src, dst) %r, identifier says %r" % (calls, (fpgn, r["prio2"], r["src"], 255))
     if k in ("parse_build", "parse_rule"):
         fid = r["fid"]
         pgn, src, dst, prio = Dec._extract_header(fid)
